@@ -13,8 +13,8 @@ def one(binary, case):
         # persistent-query acceleration is switched off here: with it on, repeated group-by queries return wrong sums under
         # this load independently of rotation (tracked under C03, see DESIGN.md section 6); C11 is about the
         # ingest / flush / rotation / search protocol itself
-        dr.ok("init", dir=d, pqs=False)
-        return dr.ok("vis_stress", indexes=case["indexes"], ms=case["ms"], seed=case["seed"], queriers=case["queriers"], timeout=180)
+        dr.ok("init", dir=d, pqs=False, **({"logfile": "%s/log-%s.txt" % (case["diag"], case["seed"])} if case.get("diag") else {}))
+        return dr.ok("vis_stress", indexes=case["indexes"], ms=case["ms"], seed=case["seed"], queriers=case["queriers"], diag=case.get("diag", ""), timeout=180)
     finally:
         if dr is not None:
             dr.quit()
